@@ -236,6 +236,40 @@ HARNESS(deep_split_get) {
   qstate();
   WITNESS();
 }
+// big nodes whose children sit at the boundary key bytes (0x00, 0x01, 0x7F, 0x80, 0x81, 0xFE, 0xFF: sign, sentinel and SIMD-lane edges), then ONE
+// remove of a boundary key (constant per entry; 02 = absent), then a get of that key and of a second key symbolic in the child-selecting byte
+// key bytes in ASCENDING order (inserting in another order did not fold: no verdict in 900 s): the seven boundary bytes plus fillers 4+5j
+static std::uint8_t bbyte_tab[64];
+static void bbyte_init(unsigned n) {
+  static const std::uint8_t e[] = {0x00, 0x01, 0x7F, 0x80, 0x81, 0xFE, 0xFF};
+  unsigned m = 0;
+  for (unsigned i = 0; i < 7; i++) bbyte_tab[m++] = e[i];
+  for (unsigned j = 0; m < n; j++) { const std::uint8_t c = static_cast<std::uint8_t>(4 + 5 * j); bool dup = false; for (unsigned i = 0; i < 7; i++) if (e[i] == c) dup = true; if (!dup) bbyte_tab[m++] = c; }
+  for (unsigned i = 1; i < n; i++) { const std::uint8_t x = bbyte_tab[i]; unsigned p = i; while (p > 0 && bbyte_tab[p - 1] > x) { bbyte_tab[p] = bbyte_tab[p - 1]; p--; } bbyte_tab[p] = x; }
+}
+static std::uint8_t bbyte(unsigned i) { return bbyte_tab[i]; }
+template <unsigned N> static void big_rem(std::uint8_t kb) {
+  static db_t d;
+  olc_thread_init();
+  bbyte_init(N);
+  for (unsigned i = 0; i < N; i++) { std::uint8_t v = static_cast<std::uint8_t>(i + 1); bool r = d.insert(B | bbyte(i), vv(&v, 1)); PROP(r, "C01: prelude insert of a fresh key succeeds"); }
+  const std::uint64_t k = B | kb, k2 = B | in_u8();          // the removed key is a constant per entry (a symbolic one makes the freed leaf symbolic: no verdict in 900 s)
+  int idx = -1, idx2 = -1;
+  for (unsigned i = 0; i < N; i++) { if (k == (B | bbyte(i))) idx = static_cast<int>(i); if (k2 == (B | bbyte(i))) idx2 = static_cast<int>(i); }
+  const bool r = d.remove(k);
+  PROP(r == (idx >= 0), "C01: remove succeeds iff the key is present (big node, boundary key bytes)");
+  got g = do_get(d, k);
+  PROP(!g.found, "C01: a removed (or absent) key is not found (big node, boundary key bytes)");
+  got g2 = do_get(d, k2);
+  PROP(g2.found == (idx2 >= 0 && k2 != k), "C01: the other entries are untouched by the remove (big node, boundary key bytes)");
+  if (g2.found) PROP(g2.size == 1 && g2.b[0] == static_cast<std::uint8_t>(idx2 + 1), "C01: get yields the bytes of the insert that created the entry");
+  PROP(!d.empty(), "C01: empty() is false while entries remain");
+  OBSERVE(r); OBSERVE(g2.found);
+  qstate();
+  WITNESS();
+}
+#define BIGREM(bb) HARNESS(big_rem48_##bb) { big_rem<20>(0x##bb); } HARNESS(big_rem256_##bb) { big_rem<51>(0x##bb); }
+BIGREM(00) BIGREM(01) BIGREM(7F) BIGREM(80) BIGREM(81) BIGREM(FE) BIGREM(FF) BIGREM(02)
 HARNESS(big_i48) { big_get<20, 0>(); }           // I4 -> I16 -> I48
 HARNESS(big_i256) { big_get<51, 0>(); }          // ... -> I256
 HARNESS(big_shr16) { big_get<17, 1>(); }         // min-size I48 shrinks to I16
